@@ -33,6 +33,7 @@
 #include <unifex/variant_sender.hpp>
 
 #include <exception>
+#include <optional>
 #include <utility>
 
 #include <unifex/detail/prologue.hpp>
@@ -682,7 +683,10 @@ struct _future_stop_callback_factory final {
     using stop_callback_t =
         inplace_stop_token::callback_type<decltype(stopCallback)>;
 
-    return stop_callback_t{stopToken_, stopCallback};
+    // the callback is wrapped in an optional so that the future's continuation
+    // can destroy (deregister) it *before* it deletes the spawned operation
+    return std::optional<stop_callback_t>{
+        std::in_place, stopToken_, stopCallback};
   }
 };
 
@@ -719,11 +723,16 @@ struct _future_sender_from_stop_token<T...>::type final {
   auto operator()(inplace_stop_token stopToken) noexcept {
     return let_value_with(
         _future_stop_callback_factory{op_.get(), stopToken},
-        [this](auto&) noexcept {
+        [this](auto& stopCallback) noexcept {
           return let_value(
               op_->evt_.async_wait(),
-              [this]() noexcept(
+              [this, &stopCallback]() noexcept(
                   noexcept(op_->get_value_sender(), op_->get_error_sender())) {
+                // deregister the stop callback first: once the spawned
+                // operation has been deleted (below, or by the operation itself
+                // after we hand it the complete state) abandon() must not run
+                stopCallback.reset();
+
                 auto rawOp = op_.release();
 
                 using value_t = decltype(op_->get_value_sender());
